@@ -35,11 +35,12 @@ class Graph:
 
 
 def gen_graph(name, wb, pool, src, workers=1, timeout=1200, extra_cfg='', lists=(), settable=None,
-              recalc=False):
+              recalc=False, setlists=()):
     d = tlc.new_scratch('eng')
     mod = f'MC_{name}_{src}'
     with open(os.path.join(d, mod + '.tla'), 'w') as f:
-        f.write(W.tla_constants(wb, pool, src, mod, lists=lists, settable=settable, recalc=recalc))
+        f.write(W.tla_constants(wb, pool, src, mod, lists=lists, settable=settable, recalc=recalc,
+                                setlists=setlists))
     with open(os.path.join(d, 'gen.cfg'), 'w') as f:
         f.write(W.ENGINE_CFG + 'INVARIANT PrintInit\nACTION_CONSTRAINT PrintEdge\n'
                 + extra_cfg)
@@ -202,6 +203,20 @@ class RealModel:
                 return 'ok', None
             if act['op'] == 'recalculate':
                 self.m.recalculate()
+                return 'ok', None
+            if act['op'] == 'set_many':
+                addrs = [p[0] for p in act['pairs']]
+                vals = [W.py_val(p[1]) for p in act['pairs']]
+                # as a range with a matrix of values when the cells are exactly a range
+                for r, rows in self.wb.get('ranges', {}).items():
+                    if [c for row in rows for c in row] == addrs and variant != 'list1':
+                        it = iter(vals)
+                        self.m.set_value(W.addr(r), [[next(it) for _ in row] for row in rows])
+                        return 'ok', None
+                if variant == 'tuple1':
+                    self.m.set_value(tuple(W.addr(a) for a in addrs), tuple(vals))
+                else:
+                    self.m.set_value([W.addr(a) for a in addrs], vals)
                 return 'ok', None
         except Exception as exc:          # noqa
             return 'exc', f'{type(exc).__name__}: {exc}'
